@@ -15,7 +15,7 @@ open Selene.Scope Selene.Lua
 some read that resolves to `d` iff the Lua resolver binds some identifier occurrence in an expression
 position to `d`.  Hence a variable with no recorded read is one the script never reads, and a variable
 the script reads always has a recorded read. -/
-theorem C02_used_iff (b : Block) (d : Nat) :
+theorem C02_used_iff [Core.NameFilter] (b : Block) (d : Nat) :
     (∃ t, (t, some d) ∈ (Core.analyse b).answers) ↔
       ∃ oc ∈ (Spec.resolve b).occs, SpecProof.counted oc = true ∧ oc.binding.map (·.1) = some d := by
   constructor
